@@ -184,6 +184,21 @@ UNITS.append(dict(name="c02_pdst_findDurationAndAncestor", template="C02/pdst_an
                   sources=[dict(name="findDurationAndAncestor", file=PDSTF, sig=r"unsigned int ompl::control::PDST::findDurationAndAncestor\(Motion \*motion, base::State \*state, base::State \*scratch,\s*Motion \*&ancestor\) const", rules=PA_RULES, loops={"allow_uncontracted": True})],
                   canaries=[dict(name="pieces_identified_by_control_value", where="body:findDurationAndAncestor", rx=r"M_control_\[\(\*ancestor_p\)\] == M_control_\[M_parent_\[\(\*ancestor_p\)\]\]", repl="EQUAL_CONTROLS(M_control_[(*ancestor_p)], M_control_[M_parent_[(*ancestor_p)]])")]))
 
+CE_RULES = [
+    (r"bool approximate = false;", "bool approximate = false;", 0), (r"lastGoalMotion_ = solution;", "lastGoalMotion_ = solution; lgm_set = true;", 0),
+    (r"std::vector<Motion \*> mpath;", "mpath_n = 0;", 0), (r"mpath\.push_back\(solution\);", "MPATH_PUSH(solution);", 0), (r"solution->parent", "M_parent[solution]", 0),
+    (r"auto path\(std::make_shared<PathControl>\(si_\)\);", "path_n = 0;", 0), (r"mpath\.size\(\)", "mpath_n", 0), (r"mpath\[i\]->parent", "M_parent[mpath[i]]", 0),
+    (r"path->append\(mpath\[i\]->state, mpath\[i\]->control, mpath\[i\]->steps \* siC_->getPropagationStepSize\(\)\);", "PATH_APPEND3(mpath[i], mpath[i], DURATION(M_steps[mpath[i]], STEPSIZE));", 0),
+    (r"path->append\(mpath\[i\]->state\);", "PATH_APPEND1(mpath[i]);", 0), (r"pdef_->addSolutionPath\(path, approximate, approxdif, getName\(\)\);", "ADD_SOLUTION(approximate, approxdif);", 0),
+    (r"if \(rmotion->state\)\s*si_->freeState\(rmotion->state\);", "", 0), (r"if \(rmotion->control\)\s*siC_->freeControl\(rmotion->control\);", "", 0), (r"delete rmotion;", "", 0),
+    (r"siC_->freeControl\(rctrl\);", "", 0), (r"for \(auto &state : states\)\s*si_->freeState\(state\);", "", 0), (r"\bnullptr\b", "NIL", 0),
+]
+for _pl, _f in (("est", "src/ompl/control/planners/est/src/EST.cpp"), ("kpiece1", "src/ompl/control/planners/kpiece/src/KPIECE1.cpp")):
+    UNITS.append(dict(name="c02_%s_report_epilogue" % _pl, template="C02/ctrl_epilogue.c", mode="plain", entry="h_ctrl_epilogue", flags=["--bounds-check", "--pointer-check", "--signed-overflow-check", "--conversion-check"], unwind=8, level="bounded",
+                      bound="parent chains of <= 4 motions", backend="minisat", timeout=300, functions=["ompl::control::%s::solve (result-reporting epilogue)" % _pl.upper()],
+                      sources=[dict(name="ctrl_epilogue", file=_f, begin=r"bool approximate = false;\s*if \(solution == nullptr\)", end=r"return \{solved, approximate\};", rules=CE_RULES, loops={"allow_uncontracted": True}, wrap_braces=False)],
+                      canaries=[dict(name="control_of_the_parent", where="body:ctrl_epilogue", rx=r"PATH_APPEND3\(mpath\[i\], mpath\[i\],", repl="PATH_APPEND3(mpath[i], M_parent[mpath[i]],")]))
+
 ASSUMPTIONS = ["the user's state propagator and validity checker are deterministic callbacks; states/controls are abstract objects with ghost counters",
                "bounded: |steps| <= 4, at most 3 control samples; control dimension <= 64", "RNG contract uniformReal in [a,b)",
                "planner fragments: motions/states/controls are references with ghost content ids; the goal, samplers and propagators are arbitrary"]
